@@ -8,7 +8,7 @@ forwarded) and 'nfev counts every evaluation including stencil points': unit SF.
 assumed contract of approx_derivative.  Accuracy w.r.t. exact-gradient solutions: bounded stand-in only.
 """
 from props._mainbased import main_property, selector
-from units import sf_unit, ls_unit
+from units import sf_unit, ls_unit, flow_unit
 
 PID = "C16"
 
@@ -16,12 +16,14 @@ PID = "C16"
 def check(tier, seed):
     sf = sf_unit.run_unit(tier)
     ls = ls_unit.run_unit(tier)
+    fl = flow_unit.run_unit(tier)       # the finite-difference set-up of one solve is not shared with another one
     return main_property(
         PID, tier, seed, "other",
         "precondition of approx_derivative proved at every call site (UF + clip axioms); dispatch and counting from "
         "unit SF; accuracy clause bounded.",
         extra_reports=[(sf, lambda r: "C16" in r.props or "g_current" in r.name or "nfev_counts" in r.name),
-                       (ls, lambda r: "INBOX" in r.props)],
+                       (ls, lambda r: "INBOX" in r.props),
+                       (fl, lambda r: "no_global_state" in r.name)],
         extra_assumptions=["assumed contract of approx_derivative (stencil inside the bounds; ValueError iff the base "
                            "point is outside)", "accuracy of finite-difference solutions: bounded stand-in only"],
         what="clauses checked natively: FD runs with active bounds never raise; objective value close to the "
